@@ -73,7 +73,7 @@ def _child(group, p, cachedir, logpath, barrier_r):
     return out
 
 
-def run_group(group, root):
+def run_group(group, root, timeout=60.):
     """-> dict(records, callers: [{status, results}], model: {key: vh})"""
     cachedir = os.path.join(root, 'cache')
     logpath = os.path.join(root, 'intervals.log')
@@ -107,8 +107,9 @@ def run_group(group, root):
     os.close(br)
     os.close(bw)                    # release the barrier
     callers = []
+    deadline = time.time() + timeout
     for pid, r in kids:
-        status, out = L._collect(pid, r, timeout=60.)
+        status, out = L._collect(pid, r, timeout=max(.5, deadline - time.time()))
         callers.append(dict(status=status, results=out))
     records = []
     if os.path.exists(logpath):
